@@ -131,6 +131,23 @@ def _predicates(ctx, s, exp, cls):
                 ctx.violation(f"verdict/is_addr-rejects-valid-segwit/{cls}", f"is_addr({s!r}) = {r}")
         except Exception as e:
             ctx.violation(f"predicate-raises/{name}/{type(e).__name__}/{cls}", f"{name}({s!r}) raised {type(e).__name__}: {e}")
+    # the two "is this an address at all" entry points must agree with the same rule: Base58Check-valid or segwit-valid
+    from ..ref import base58 as r58_
+    any_valid = exp is not None or r58_.check_decode(s) is not None
+    try:
+        r = bits.is_addr(s)
+        if isinstance(r, bool) and r != any_valid:
+            ctx.violation(f"verdict/is_addr-{'accepts-invalid' if r else 'rejects-valid'}/{cls}", f"is_addr({s!r}) = {r}, reference {any_valid}")
+    except Exception:
+        pass    # reported above
+    try:
+        r = bits.assert_addr(s)
+        accepted = True
+    except Exception as e:
+        r, accepted = e, False
+    ctx.count("neg.assert_addr")
+    if accepted != any_valid or (accepted and r is not True):
+        ctx.violation(f"verdict/assert_addr-{'accepts-invalid' if accepted else 'rejects-valid'}/{cls}", f"assert_addr({s!r}) -> {r!r}, reference says {'valid' if any_valid else 'invalid'}")
     if exp is not None:
         try:
             d = bits.decode_segwit_addr(s)
